@@ -23,10 +23,11 @@ import (
 
 // Outcome of one oracle evaluation.
 type Outcome struct {
-	Err        error    // non-nil: the property is violated on this input
-	NonTrivial bool     // by the rule stated for the property
-	Labels     []string // classes this case belongs to
-	Key        uint64   // hash identifying the case (0: hash of the input JSON)
+	Err        error          // non-nil: the property is violated on this input
+	NonTrivial bool           // by the rule stated for the property
+	Labels     []string       // classes this case belongs to
+	Key        uint64         // hash identifying the case (0: hash of the input JSON)
+	Counts     map[string]int // additive counters (e.g. number of alterations tried inside one case)
 }
 
 func OK(nontrivial bool, labels ...string) Outcome {
@@ -66,6 +67,7 @@ type Stats struct {
 	PerCheck     map[string]int    `json:"per_check"`
 	PerCheckNT   map[string]int    `json:"per_check_nontrivial"`
 	Labels       map[string]int    `json:"labels"`
+	Counters     map[string]int    `json:"counters"`
 	Samples      []json.RawMessage `json:"samples"`
 	Excluded     map[string]int    `json:"excluded"`
 	Exhaustive   map[string]bool   `json:"exhaustive"`
@@ -110,7 +112,7 @@ func NewCtx(t *testing.T, prop string) *Ctx {
 	}
 	c.outDir = os.Getenv("VERIF_OUT")
 	c.stats = &Stats{Property: prop, Tier: c.Tier, Shard: c.Shard, PerCheck: map[string]int{}, PerCheckNT: map[string]int{},
-		Labels: map[string]int{}, Excluded: map[string]int{}, Exhaustive: map[string]bool{}, hashes: map[uint64]struct{}{}, sampleCount: map[string]int{}}
+		Labels: map[string]int{}, Counters: map[string]int{}, Excluded: map[string]int{}, Exhaustive: map[string]bool{}, hashes: map[uint64]struct{}{}, sampleCount: map[string]int{}}
 	t.Cleanup(func() { c.finish() })
 	go c.watchdog()
 	return c
@@ -167,6 +169,9 @@ func (c *Ctx) record(check string, key uint64, o Outcome, sample func() any) {
 	s.PerCheck[check]++
 	for _, l := range o.Labels {
 		s.Labels[l]++
+	}
+	for k, v := range o.Counts {
+		s.Counters[k] += v
 	}
 	if o.NonTrivial {
 		s.NonTrivial++
